@@ -321,6 +321,7 @@ structure Inv (C : Crypto) (bs : Array Bytes) (t : Tree) (f : File) (cs : Change
   length : cs.length = L
   bytes : cs.byteLength = psum bs L
   closed : ClosedAt C bs L (vt t cs) f
+  nodesRef : ∀ x ∈ cs.rnodes, ∃ d o, x = nodeAt C bs d o ∧ (o + 1) * 2 ^ d ≤ L
 
 theorem insertAll_append (m : NMap) (a b : List Node) : insertAll m (a ++ b) = insertAll (insertAll m a) b := by
   simp [insertAll, List.foldl_append]
@@ -331,7 +332,18 @@ theorem step_inv (C : Crypto) (hC : HashWF C) (bs : Array Bytes) (t : Tree) (f :
     Inv C bs t f (appendRoot C cs (nodeAt C bs J M) (iat J M)).1 (M * 2 ^ J + 2 ^ J)
       ∧ ∃ top, (appendRoot C cs (nodeAt C bs J M) (iat J M)).2 = iat top.1 top.2 ∧ (rootsStack (M * 2 ^ J + 2 ^ J)).head? = some top := by
   obtain ⟨added, top, a1, a2, a3, a4, a5, a6, a7, a8⟩ := appendRoot_dyadic C bs cs M J h.roots
-  refine ⟨⟨a1, by rw [a7, h.length], ?_, ?_⟩, top, a3, a4⟩
+  have hXe : (M + 1) * 2 ^ J = M * 2 ^ J + 2 ^ J := by ring
+  have hnr : ∀ x ∈ (appendRoot C cs (nodeAt C bs J M) (iat J M)).1.rnodes, ∃ d o, x = nodeAt C bs d o ∧ (o + 1) * 2 ^ d ≤ M * 2 ^ J + 2 ^ J := by
+    intro x hx
+    rw [a2] at hx
+    simp only [List.mem_append, List.mem_cons] at hx
+    rcases hx with hx | rfl | hx
+    · obtain ⟨d, o, e, hb, _⟩ := a5 x hx
+      exact ⟨d, o, e, Nat.le_of_eq hb⟩
+    · exact ⟨J, M, rfl, Nat.le_of_eq hXe⟩
+    · obtain ⟨d, o, e, hb⟩ := h.nodesRef x hx
+      exact ⟨d, o, e, Nat.le_trans hb (Nat.le_add_right _ _)⟩
+  refine ⟨⟨a1, by rw [a7, h.length], ?_, ?_, hnr⟩, top, a3, a4⟩
   · rw [a8, h.bytes]
     have := nodeAt_len C bs J M
     have e : (M + 1) * 2 ^ J = M * 2 ^ J + 2 ^ J := by ring
@@ -760,5 +772,78 @@ theorem upgradeRoots_match (C : Crypto) (hC : HashWF C) (bs : Array Bytes) (t : 
         · have : st'.cs = cs' := r6 hl
           rw [this]; exact g6 hgne
         · exact r5 hl
+
+/-! ### `verify_upgrade` accepts the honest upgrade from `m` to `n` -/
+
+/-- the reference roots of the first `n` blocks, left to right -/
+def rootsAt (C : Crypto) (bs : Array Bytes) (n : Nat) : List Node := (rootsStack n).reverse.map (fun p => nodeAt C bs p.1 p.2)
+
+/-- what the writer signs when its log has the first `n` blocks -/
+def signableAt (C : Crypto) (bs : Array Bytes) (n fork : Nat) : Bytes := signable (rootsHash C (rootsAt C bs n)) n fork
+
+theorem inv_roots (C : Crypto) (bs : Array Bytes) (t : Tree) (f : File) (cs : Changeset) (L : Nat) (h : Inv C bs t f cs L) :
+    cs.roots = rootsAt C bs L := by
+  have := congrArg List.reverse h.roots
+  simpa [rootsAt, List.map_reverse] using this
+
+theorem inv_congr (C : Crypto) (bs : Array Bytes) (t : Tree) (f : File) (cs cs' : Changeset) (L : Nat) (h : Inv C bs t f cs L)
+    (h1 : cs'.roots = cs.roots) (h2 : cs'.length = cs.length) (h3 : cs'.byteLength = cs.byteLength) (h4 : cs'.rnodes = cs.rnodes) :
+    Inv C bs t f cs' L := by
+  have hvt : vt t cs' = vt t cs := by simp [vt, Changeset.nodes, h2, h4]
+  exact ⟨by rw [h1]; exact h.roots, by rw [h2]; exact h.length, by rw [h3]; exact h.bytes, by rw [hvt]; exact h.closed,
+    by rw [h4]; exact h.nodesRef⟩
+
+theorem grow_upgrade_accepted (C : Crypto) (hC : HashWF C) (bs : Array Bytes) (t : Tree) (f : File) (m n : Nat) (hN : n < 2 ^ 64)
+    (hm0 : 0 < m) (hmn : m < n) (fork : Nat) (pk sig : Bytes) (cs : Changeset) (hinv : Inv C bs t f cs m)
+    (us : List (Nat × Nat)) (hup : Up m 0 (rootsStack n).reverse us) (hsl : sig.length = 64)
+    (hver : C.verify pk (signableAt C bs n fork) sig = true) :
+    ∃ cs', verifyUpgrade C fork ⟨m, n - m, us.map (fun p => nodeAt C bs p.1 p.2), [], sig⟩ none pk cs = .ok (true, cs')
+      ∧ Inv C bs t f cs' n ∧ cs'.fork = fork ∧ cs'.signature = some sig ∧ cs'.upgraded = true
+      ∧ cs'.origLength = cs.origLength ∧ cs'.origFork = cs.origFork ∧ cs'.ancestors = cs.ancestors := by
+  have hroots := inv_roots C bs t f cs m hinv
+  have hrne : cs.roots ≠ [] := by
+    rw [hroots, rootsAt]
+    intro hnil
+    have hc := cover_roots m
+    have : (rootsStack m).reverse = [] := by simpa using hnil
+    rw [this] at hc
+    have := UpgradeComplete.cover_nil_eq _ _ hc
+    omega
+  have hgrow : (!cs.roots.isEmpty) = true := by
+    cases hr : cs.roots with
+    | nil => exact absurd hr hrne
+    | cons a b => rfl
+  obtain ⟨st', h1, h2, h3, h4, h5⟩ := upgradeRoots_match C hC bs t f m n hN hm0 hmn cs hinv (rootsStack n).reverse (2 * n + 2) 0
+    ⟨cs, Iter.new 0, NodeQueue.new (us.map (fun p => nodeAt C bs p.1 p.2)) none, 0, !cs.roots.isEmpty⟩ [] (rootsStack m).reverse us
+    (cover_roots n) (rootsStack_rev_dec n) (align_zero _) (by show Iter.new 0 = iat 0 0; exact new_even 0) hgrow rfl
+    (by simpa [rootsAt] using hroots) (cover_roots m) (rootsStack_rev_dec m) rfl hup (by simp [NodeQueue.new]) rfl
+    (by
+      have hl := UpgradeComplete.cover_length_le _ _ _ (cover_roots n)
+      omega)
+  have hr' := inv_roots C bs t f st'.cs n h2
+  have hlast : ∃ l, st'.cs.roots.getLast? = some l := by
+    cases hgl : st'.cs.roots.getLast? with
+    | none =>
+      exfalso
+      have : st'.cs.roots = [] := by simpa using hgl
+      rw [hr', rootsAt] at this
+      have hnil : (rootsStack n).reverse = [] := by simpa using this
+      have hc := cover_roots n
+      rw [hnil] at hc
+      have := UpgradeComplete.cover_nil_eq _ _ hc
+      omega
+    | some l => exact ⟨l, rfl⟩
+  obtain ⟨last, hlast⟩ := hlast
+  obtain ⟨m1, m2, m3, m4, m5⟩ := h4
+  refine ⟨{ st'.cs with fork := fork, hash := some (rootsHash C st'.cs.roots), signature := some sig }, ?_,
+    inv_congr C bs t f st'.cs _ n h2 rfl rfl rfl rfl, rfl, rfl, h5, m2, m3, m4⟩
+  unfold verifyUpgrade
+  have hto : m + (n - m) = n := by omega
+  simp only [andThen, hto]
+  rw [h1]
+  simp only [hlast, extraSiblings, extraRest, checkSignature, hsl, ne_eq, not_true_eq_false, ite_false, h3, Option.isNone_none]
+  have hv : C.verify pk (signable (rootsHash C st'.cs.roots) st'.cs.length fork) sig = true := by
+    rw [hr', h2.length]; exact hver
+  simp [hv]
 
 end HC.Growth
